@@ -6,7 +6,7 @@
 (* The wires double as the input corpus of the relational explorations      *)
 (* (C01, C03, C05, C11, C12, C13, C19).                                     *)
 (***************************************************************************)
-EXTENDS Gen, SIPMsg, Props, TLC, Json
+EXTENDS Gen, SIPMsg, Props, TLC, Json, FiniteSets
 
 CONSTANTS K,        \* number of header lines drawn from the pool (besides an optional Content-Length line)
           Part,     \* which slice of the product to enumerate: "hdrs" | "framing" | "caps"
@@ -110,8 +110,35 @@ MsgBig(x) == LET ls == IF x[5] = 0 THEN <<PoolLine(x[2]), BigLine(x[3], x[4])>> 
                  m == GenMsg(0, 34, FLs[x[1]], CRLF, ls, CRLF, BODY3, -1, x[6], 64)
              IN [m EXCEPT !.err = "ERR", !.offs = -1]
 
-Choices == CASE Part = "hdrs" -> ChoicesHdrs [] Part = "bigclen" -> ChoicesBig [] Part = "framing" -> ChoicesFraming [] Part = "caps" -> ChoicesCaps
-Msg(x)  == CASE Part = "hdrs" -> MsgHdrs(x) [] Part = "bigclen" -> MsgBig(x) [] Part = "framing" -> MsgFraming(x) [] Part = "caps" -> MsgCaps(x)
+\* slice "cexp" (C09): several Contact headers whose values all carry an explicit expires, fillers and an Expires
+\* header in between: value count, header count and the min / max expires summarise ALL values of ALL headers
+CLine(k) == CASE k = 1 -> [l |-> H(N_Contact, VC_e10), e |-> <<10>>]
+              [] k = 2 -> [l |-> H(N_m, VC_e60_5), e |-> <<60, 5>>]
+              [] k = 3 -> [l |-> GenHdrLine(N_CONTACT, WS1, WS1, VC_e7200, WS0, LFONLY), e |-> <<7200>>]
+              [] k = 4 -> [l |-> H(N_Contact, VC_e3), e |-> <<3>>]
+              [] k = 5 -> [l |-> H(N_X, V_x1), e |-> <<>>]
+              [] k = 6 -> [l |-> H(N_Expires, V_expires3), e |-> <<>>]
+ChoicesCExp == (UNION { [1..k -> 1..6] : k \in 2..K }) \X {-1, 0, 1, 2}
+RECURSIVE CatSeq(_, _)
+CatSeq(ss, k) == IF k > Len(ss) THEN <<>> ELSE ss[k] \o CatSeq(ss, k + 1)
+SMin(S) == CHOOSE x \in S : \A y \in S : x <= y
+SMax(S) == CHOOSE x \in S : \A y \in S : y <= x
+MsgCExp(x) ==
+  LET idx == x[1]
+      ls  == SubSeq([j \in 1..Len(idx) |-> CLine(idx[j]).l], 1, Len(idx))
+      es  == CatSeq(SubSeq([j \in 1..Len(idx) |-> CLine(idx[j]).e], 1, Len(idx)), 1)
+      hno == Cardinality({j \in 1..Len(idx) : idx[j] <= 4})
+      hasE == \E j \in 1..Len(idx) : idx[j] = 6
+      S   == {es[j] : j \in 1..Len(es)}
+      m   == GenMsg(0, 34, FLs[2], CRLF, ls, CRLF, BODY0, -1, 0, 64)
+      mx  == IF S = {} THEN 0 ELSE SMax(S)
+  IN [ccap |-> x[2], obs |-> [PV |-> [Contacts |-> IF S = {} THEN [N |-> 0, HNo |-> 0]
+                                             ELSE [N |-> Len(es), HNo |-> hno, MinExpires |-> <<SMin(S), 0>>, MaxExpires |-> <<mx, 0>>],
+                                MaxExpiresOk |-> (S # {} \/ hasE),
+                                MaxExpires |-> <<(IF hasE /\ 100 > mx THEN 100 ELSE mx), 0>>]]] @@ m
+
+Choices == CASE Part = "hdrs" -> ChoicesHdrs [] Part = "cexp" -> ChoicesCExp [] Part = "bigclen" -> ChoicesBig [] Part = "framing" -> ChoicesFraming [] Part = "caps" -> ChoicesCaps
+Msg(x)  == CASE Part = "hdrs" -> MsgHdrs(x) [] Part = "cexp" -> MsgCExp(x) [] Part = "bigclen" -> MsgBig(x) [] Part = "framing" -> MsgFraming(x) [] Part = "caps" -> MsgCaps(x)
 
 VARIABLE c
 Init == c \in Choices
@@ -122,12 +149,13 @@ ObsFor(m) == CASE Prop = "C07" -> [HL |-> m.obs.HL]
                [] Prop = "C06" -> [Body |-> m.obs.Body, RawMsg |-> m.obs.RawMsg, Parsed |-> m.obs.Parsed]
                [] Prop = "corpus" -> [n |-> m.nhdr]
                [] Prop = "C10" -> [n |-> m.nhdr]
+               [] Prop = "C09" -> m.obs
                [] OTHER -> m.obs
-Cfg(m) == [kind |-> "msg", start |-> 0, flags |-> m.flags, hcap |-> m.hcap, ccap |-> -1, pcap |-> -1]
+Cfg(m) == [kind |-> "msg", start |-> 0, flags |-> m.flags, hcap |-> m.hcap, ccap |-> (IF "ccap" \in DOMAIN m THEN m.ccap ELSE -1), pcap |-> -1]
 \* one oracle record per generated message; GenSane: model-level sanity of the generator itself
 Emit == LET m == Msg(c) IN
           /\ m.offs <= Len(m.wire)
-          /\ \A k \in 1..Len(m.obs.HL.Hdrs) :
+          /\ ("HL" \in DOMAIN m.obs) => \A k \in 1..Len(m.obs.HL.Hdrs) :
                 LET h == m.obs.HL.Hdrs[k] IN h.Name[1] + h.Name[2] <= Len(m.wire) /\ h.Val[1] + h.Val[2] <= Len(m.wire)
           /\ PrintT(ToJson([k |-> "msg", cfg |-> Cfg(m), wire |-> m.wire, cuts |-> <<Len(m.wire)>>,
                             offs |-> m.offs, err |-> m.err, errs |-> (IF m.err = "ERR" THEN <<"ERR">> ELSE <<>>), obs |-> ObsFor(m),
